@@ -139,6 +139,12 @@ def defaultScaleWith (R : RepOps) (k : Int) (radix : Nat) (x : Num) : Res Num :=
   if k ≥ 0 then powerValueWith R x.1 k.toNat radix >>= fun p => binWith R .mul x p
   else powerValueWith R x.1 (-k).toNat radix >>= fun p => binWith R .div x p
 
+/-- `d`, unless naming the type of `r` is already ill-formed -/
+def illOr {α β : Type} (r : Res α) (d : Res β) : Res β :=
+  match r with
+  | .ill m => .ill m
+  | _ => d
+
 /-- `cnl::scale<k, radix>` of a wrapper.
 * `rounding_integer.h`: `k ≥ 0` is `from_rep<rounding_integer<Rep, Tag>>(scale<k, radix, Rep>(to_rep(s)))`, which
   adopts the (promoted) type of the scaled representation; `k < 0` is specialised for radix 2 only and is
@@ -155,9 +161,7 @@ def scaleWith (R : RepOps) (k : Int) (radix : Nat) (x : Num) : Res Num :=
     else if radix = 2 then defaultScaleWith R k radix x
     else .ill "scale<negative, radix != 2> of a rounding_integer: no specialisation"
   | .ov r .nat =>
-    match R.scale k radix (r, x.2) with
-    | .ill m => .ill m
-    | _ => defaultScaleWith R k radix x
+    illOr (R.scale k radix (r, x.2)) (defaultScaleWith R k radix x)
   | _ => .ill "scale of this representation: not defined / not modelled"
 
 def ops : Nat → RepOps
